@@ -202,7 +202,7 @@ PROPS = {
     'C18': dict(
         title='Verifiers and proof decoders fail cleanly on malformed input',
         design_ref='DESIGN.md section 4 / C18',
-        bounded=[('plonky2', ['c03_c18_', 'c18_']), ('starky', ['c18_'])],
+        bounded=[('plonky2', ['c03_c18_', 'c18_']), ('starky', ['c18_', 'c09_c18_'])],
         vspecs=['contracts/C18/fri_shape.vspec', 'contracts/C18/stark_shape.vspec', 'contracts/C05/fri_verifier.vspec', 'contracts/C03/plonk_verifier.vspec', 'contracts/C12/merkle_verify.vspec', 'contracts/C15/util_log2.vspec'],
         level_text='Unbounded deductive proof (Verus/Z3) that, with NO precondition on the proof value beyond its Rust type, FRI shape validation and the '
                    'FRI verifier reach no failing index, slice, subtraction, shift, unwrap or assertion: every such operation in the extracted '
